@@ -80,7 +80,7 @@ def run(rep, tier, seed, rng):
         for r in (ra, rb):
             if r["tags"] & {"crash", "rc", "predicted-panic", "ninja", "configured", "modules", "nobuilds"}:
                 ndis += 1
-                rep.violation("model and implementation disagree: " + "; ".join(r["dis"])[:300], gen_common.replay_data(r), found_input=False)
+                rep.violation("model and implementation disagree: " + "; ".join(r["dis"])[:300], gen_common.replay_data(r), found_input=("crash" in r["tags"]))
         if ra["impl_raw"]["ninja"] is None or rb["impl_raw"]["ninja"] is None or ra["impl"]["rc"] != 0 or rb["impl"]["rc"] != 0:
             continue
         if sorted((x["builder"], x["app"], tuple(x["order"])) for x in ra["impl"]["builds"]) != sorted((x["builder"], x["app"], tuple(x["order"])) for x in rb["impl"]["builds"]):
